@@ -152,8 +152,8 @@ func forAllLists(n, maxLen int, f func(idx []int)) {
 
 type simClass struct {
 	mode    simMode
-	rep     simCase          // the case executed by the process (most suspended member)
-	repSusp int              //
+	rep     simCase           // the case executed by the process (most suspended member)
+	repSusp int               //
 	members map[string]member // distinct ACTIVE lists (joined indices) compiled to the same form as rep
 	cases   int
 }
